@@ -172,6 +172,22 @@ Theorem message_without_mapping_is_payload attrs : split_message attrs [] = attr
 Proof. exact (split_message_none attrs). Qed.
 Print Assumptions message_without_mapping_is_payload.
 
+(* ---- request metadata through goa's client invoker: whatever the caller's context
+   already carried, the server decoder reads under every key the caller's values
+   followed by the values the request encoder appended, in order: nothing is lost,
+   everything written is delivered (grpc/client.go Invoke). *)
+Theorem request_metadata_is_merged caller written key :
+  md_get (md_write caller written) key = md_get caller key ++ written_for key written.
+Proof. exact (md_get_write written caller key). Qed.
+Print Assumptions request_metadata_is_merged.
+
+(* ---- the unary handler runs user code only after a successful decode (which
+   includes the generated validation), and encodes only what the endpoint returned *)
+Theorem user_code_runs_only_after_decode d e :
+  (In SEndpoint (handle_trace d e) -> d = true) /\ (In SEncode (handle_trace d e) -> d = true /\ e = true).
+Proof. exact (conj (endpoint_after_decode d e) (encode_after_endpoint d e)). Qed.
+Print Assumptions user_code_runs_only_after_decode.
+
 (* ---- proto_roundtrip: a value of the modelled fragment (primitives, optional
    primitives, arrays, maps, nested messages, wrapped nested collections) whose Int /
    UInt leaves fit 32 bits is converted to a message value by the client-side
